@@ -936,16 +936,24 @@ def judge(ctx, cases, bad, tag):
     """every non-ConformanceError exception from a reachable context is a violation; remaining mismatches are
     correspondence failures"""
     bad = set(bad or [])
+    n_viol, n_mis = {}, 0
     for i, c in enumerate(cases):
         key = "%s:%s" % (KIND_NAMES[c["kind"]], c["obs"][0].strip("()").replace("ORej E_", ""))
         ctx.count(1, key=vlib.digest([c["kind"], c["data"], c["st"]]) if c["obs"][0] != "OOk" or ":valid" not in c["label"] else None,
                   bucket="hdr-%s-%s" % (KIND_NAMES[c["kind"]], tag))
         if c["exc"] is not None and c["reachable"]:
             name, where, msg = c["exc"]
+            vk = (c["kind"], name, where)
+            n_viol[vk] = n_viol.get(vk, 0) + 1
+            if n_viol[vk] > 3:
+                continue
             ctx.violation("headers:%s:%s@%s" % (KIND_NAMES[c["kind"]], name, where), replay_input(c),
                           "%s raised %s (%s) instead of a ConformanceError" % (KIND_NAMES[c["kind"]], name, msg),
                           observed="%s at %s: %s" % (name, where, msg), expected="Ok, a ConformanceError or end of stream")
         if i in bad:
+            n_mis += 1
+            if n_mis > 25:
+                continue
             ctx.obligation("corr:headers:%s:%s:%s" % (tag, KIND_NAMES[c["kind"]], vlib.digest([c["data"], c["st"]])), False,
                            "corr-shard", "model and implementation differ: label=%s observed=%s input=%r" % (
                                c["label"], c["obs"][0], replay_input(c)))
@@ -958,6 +966,8 @@ def replay_input(c):
 
 def run_headers(ctx, orig_level_constraints=None):
     """orig_level_constraints: the unmodified LEVEL_CONSTRAINTS (C01.impl() makes the live one permissive)"""
+    import time
+    t_start = time.time()
     M = mods()
     load_cerr_names()
     K = model_keys()
@@ -965,7 +975,7 @@ def run_headers(ctx, orig_level_constraints=None):
     permissive = list(LTlive)
     tdefs = coq_tables()
     tables_ok_check(ctx, tdefs)
-    n_total = ctx.pick(900, 12000)
+    n_total = ctx.pick(1200, 12000)
     outcomes = {}
     batches = [("real-levels", orig_level_constraints, int(n_total * 0.7)), ("permissive-levels", permissive, int(n_total * 0.3))]
     if orig_level_constraints is None:
@@ -984,6 +994,7 @@ def run_headers(ctx, orig_level_constraints=None):
                 for c in cases:
                     c["batch"], c["tag"] = bi, tag
                 all_cases += cases
+        t_gen = time.time()
         # one coqc run over both batches (the level table is selected per case), small shards for parallelism
         sel = "LT0" if len(batches) == 1 else "(if fst x =? 0 then LT0 else LT1)"
         bad = ctx.coq_check_cases("c02_headers", IMPORTS, "fun x : Z * %s => check TT %s (snd x)" % (CASE_TY, sel),
@@ -1014,6 +1025,7 @@ def run_headers(ctx, orig_level_constraints=None):
                        "slices_have_same_dimensions); initialize_fragment_state is replaced by its two counter assignments "
                        "when the declared picture is larger than 256x256" % MAX_DEPTH)
     ctx.note("header-level correspondence outcomes: %r" % (outcomes,))
+    ctx.extra["headers_seconds"] = {"generate+run implementation": round(t_gen - t_start, 1), "total": round(time.time() - t_start, 1)}
 
 
 def replay_headers(ctx, data):
